@@ -588,12 +588,15 @@ func ruleValidate(c *Ctx) {
 			}
 			c.check(ok2, fname(fn), c.pos(fn.Pos()), fname(fn), "constructor validates before returning nil", fmt.Sprintf("constructor of %s can return a nil error (at %s) without calling %s", tn, where, vm.Name()))
 		}
-		// (c) slice decoders: yaml.Unmarshal into []T then validate each element in a loop
-		for _, mem := range sp.Members {
-			fn, ok := mem.(*ssa.Function)
-			if !ok || len(fn.Blocks) == 0 {
-				continue
+		// (c) slice decoders: yaml.Unmarshal into []T then validate each element in a loop (generic helpers are judged per instantiation)
+		var decoders []*ssa.Function
+		for _, fn := range c.srcFuncs() {
+			if fn.Parent() == nil && len(fn.Blocks) > 0 && (fn.Pkg == sp || (fn.Origin() != nil && fn.Origin().Pkg == sp)) {
+				decoders = append(decoders, fn)
 			}
+		}
+		sort.Slice(decoders, func(i, j int) bool { return decoders[i].String() < decoders[j].String() })
+		for _, fn := range decoders {
 			res := fn.Signature.Results()
 			if res.Len() != 2 || !isErrorType(res.At(1).Type()) {
 				continue
@@ -628,7 +631,11 @@ func ruleValidate(c *Ctx) {
 				good = ret && c.loopCoversSlice(vcall.Block())
 				why = "the element validation loop does not cover every decoded element, or its verdict is not returned"
 			}
-			c.check(good, fname(fn), c.pos(fn.Pos()), fname(fn), "every decoded element is validated", fmt.Sprintf("%s decodes []%s from YAML but %s", fname(fn), tn, why))
+			key := fname(fn)
+			if fn.Origin() != nil && fn.Origin() != fn {
+				key += "[" + tn + "]"
+			}
+			c.check(good, key, c.pos(fn.Pos()), fname(fn), "every decoded element is validated", fmt.Sprintf("%s decodes []%s from YAML but %s", key, tn, why))
 		}
 	}
 	// Map: only NewMap constructs it
